@@ -97,6 +97,47 @@ theorem station_accepts_forwarded (cfg : Cfg) (req : Req) (ext : Ext) (m : Nat) 
   rw [hfwd] at hder ⊢
   exact stationApply_accepts hder hsrc h4 h6
 
+/-- The statement one would like instead — *"whatever the station accepts without the registrar's response
+it accepts with it"*, with the station's derivation from the **client's** parameters (`dC`) as the only
+premise — is false: the parameters the registrar attaches replace the client's before the station parses
+them, and the station's transport can refuse them although it accepted the client's (`dR = fail`).  On the
+code this happens for a Prefix registration of a client library version below 3 without parameters
+(recorded finding `C12:station-rejects-forwarded:client-version-cannot-support-transport`, replayed against
+the Go code on every run by the harness); `station_accepts_forwarded` is the part that holds. -/
+def station_accepts_forwarded_full : Prop :=
+  ∀ (cfg : Cfg) (req : Req) (ext : Ext) (m : Nat) (a : Option String) (c : Resp) (f : Fwd),
+    registerBidirectional W cfg req ext m a = .ok c f →
+    ∀ (v6 : Bool) (dC dR : Derived) (src : IPKind), dC ≠ .fail → src ≠ .invalid → (v6 = false → src = .v4) →
+      (v6 = true → ∃ x, c.v6 = some x ∧ ipKind x = .v6) →
+      ∃ ph port ps, stationApply v6 req.disable req.params dC dR src f.resp = .ok ph port ps
+
+/-- the witness: an unauthenticated registrar with a fixed prefix override, a Prefix registration without
+parameters on a phantom without random-port support -/
+def cfgR : Cfg :=
+  { authenticated := false, hasOverrides := true, enforce := false, pctMin := 0, pctPrefix := 0,
+    minSubnets := [], prefixSubnets := [], exclusions := [] }
+def reqR : Req :=
+  { hasPayload := true, secretLen := 32, v4 := true, v6 := false, transport := 4, disable := false, params := none,
+    source := 0, regAddr := none, forgedResp := none, forgedBytes := "", forgedSig := "" }
+def extR : Ext :=
+  { sel4 := .ok 3405803783 false, sel6 := .err, transportKnown := true, parseOk := true, ovSel := .fields 9 "5353482d" 1,
+    unmarshal := some {}, port := none, pctDraw := 0, uNum := 0, uDen := 1, hostDraw := 0, sendOk := true }
+def respR : Resp :=
+  { v4 := some 3405803783, port := some 443,
+    params := some (.pfx { prefixId := some 9, pbytes := some "5353482d", flush := some 1 }) }
+
+theorem station_accepts_forwarded_full_refuted : ¬ station_accepts_forwarded_full := by
+  intro h
+  have hreg : registerBidirectional W cfgR reqR extR 4 none =
+      .ok respR { source := 4, resp := some respR, secretKept := true, payloadKept := true } := by decide
+  obtain ⟨ph, port, ps, hst⟩ := h cfgR reqR extR 4 none _ _ hreg false (.ok (.v4 3323068417) 443) .fail .v4
+    (by decide) (by decide) (fun _ => rfl) (fun hv => by cases hv)
+  have hrej : stationApply false reqR.disable reqR.params (.ok (.v4 3323068417) 443) .fail .v4
+      ({ source := 4, resp := some respR, secretKept := true, payloadKept := true } : Fwd).resp = .reject "build" := by
+    decide
+  rw [hrej] at hst
+  cases hst
+
 /-- what the wrapper stage makes of a request does not depend on the client's response / signature fields -/
 theorem wrapper_ignores_forged (cfg : Cfg) (req : Req) (cresp : Option Resp) (m : Nat) (a : Option String)
     (fr : Option Resp) (fb fs : String) :
